@@ -23,7 +23,7 @@ Has(e, f) == f \in DOMAIN e
 Fail(prop, rule, e) == PrintT(<<"FAIL", prop, rule, e.hi, (IF Has(e, "oi") THEN e.oi ELSE -1), l>>)
 
 NoHandle == [open |-> FALSE, name |-> "", view |-> <<>>, cur |-> 0, known |-> TRUE, fill |-> 0, clean |-> TRUE]
-S0 == [files |-> <<>>, cfopen |-> FALSE, hd |-> NoHandle, mode |-> "plain",
+S0 == [files |-> <<>>, cfopen |-> FALSE, hd |-> NoHandle, parked |-> NoHandle, mode |-> "plain",
        faulted |-> FALSE, taint |-> {}, unrec |-> {}]
 
 StreamRuns(streams, n) == RNorm(streams[CHOOSE i \in 1..Len(streams) : streams[i].name = n].runs)
@@ -132,13 +132,16 @@ OkStep(st, e) ==
                     IF e.disk.k = "ok" THEN RNorm(e.disk.v) = st.files[hd.name]
                     ELSE (st.mode = "rw_faults" /\ st.unrec # {})),
            st, "fresh_read")
+    \* a second handle: the current one is set aside untouched (park) and taken up again later
+    [] e.op = "park" -> V(TRUE, [st EXCEPT !.parked = hd, !.hd = NoHandle], "park")
+    [] e.op = "unpark" -> V(TRUE, [st EXCEPT !.hd = st.parked, !.parked = NoHandle], "unpark")
     [] e.op = "close" ->
          V(TRUE, [st EXCEPT !.files = IF hd.open THEN (hd.name :> hd.view) @@ @ ELSE @,
                             !.hd = NoHandle], "close")
 
 (* Ops that need a handle / an open file, and whether the cursor may move   *)
 NeedsHandle(e) == e.op \in {"read", "read_to_end", "fill_buf", "consume", "write", "write_all", "seek",
-                            "position", "set_len", "flush", "len", "fresh_read"}
+                            "position", "set_len", "flush", "len", "fresh_read", "park"}
 MovesCursor(e) == e.op \in {"read", "read_to_end", "fill_buf", "consume", "write", "write_all", "seek", "set_len"}
 Fired(e) == Has(e, "fired") /\ e.fired # <<>>
 
@@ -208,6 +211,10 @@ OpStep(e) ==
             /\ (IF Has(e, "imghash") /\ l > 1 /\ Has(Rec[l - 1], "imghash") /\ Rec[l - 1].hi = e.hi
                    /\ e.imghash # Rec[l - 1].imghash
                 THEN Fail("C10", "bytes-unchanged:" \o e.op, e) ELSE TRUE)
+       ELSE IF e.op = "fresh_read" /\ s.mode = "rw_faults" /\ ~fired /\ s.hd.clean /\ s.hd.name \notin s.taint /\ s.unrec = {}
+       THEN \* "later calls may fail" - but not this one: the stream was flushed with Ok, no failed call touched
+            \* it, and every failed call has been retried successfully; its bytes must be read back
+            /\ Fail("C13", "flushed-stream-unreadable", e) /\ skip' = TRUE /\ UNCHANGED s
        ELSE IF s.mode = "plain" \/ ~(fired \/ s.faulted)
        THEN /\ Fail("C06", "unexpected-error", e)
             /\ PrintT(<<"EXPECTED", exp, "GOT", e.res>>)
